@@ -104,6 +104,10 @@ func (e *Engine) VerifyFunction(c *Contract) (res *FuncResult) {
 			panic(r)
 		}
 	}()
+	if c.Stale != "" {
+		res.Err = "stale contract (a clause no longer compiles against the code): " + c.Stale
+		return
+	}
 	fn := e.resolveFn(c)
 	if fn == nil {
 		res.Err = "function not found (stale contract)"
@@ -216,6 +220,29 @@ func (e *Engine) runOnce(c *Contract, fn *ssa.Function, res *FuncResult) {
 		pt, ok := fv.Type().Underlying().(*types.Pointer)
 		if !ok {
 			unsupported("free variable %s is not a pointer", fv.Name())
+		}
+		_, isArr := pt.Elem().Underlying().(*types.Array)
+		_, isStruct := pt.Elem().Underlying().(*types.Struct)
+		if isArr || isStruct {
+			// a captured array or struct is sliced, indexed or used as a method receiver in place: it
+			// lives on the heap
+			r := tb.Const("fv_"+fv.Name(), SRef)
+			e.addGlobalFact(tb.IntCmp("<", tb.RootID(r), st.clock))
+			e.addGlobalFact(tb.IntCmp(">=", tb.RootID(r), tb.Int(0)))
+			e.addGlobalFact(tb.Not(tb.Eq(r, tb.RefNil())))
+			tb.OldRefs[r] = true
+			pv := &PtrVal{Kind: KObj, Ref: r, Typ: pt.Elem()}
+			fr.vals[fv] = pv
+			fr.free[e.posKey(fv.Name(), fv.Pos())] = pv
+			fr.params[e.posKey(fv.Name(), fv.Pos())] = pv
+			if isStruct {
+				ev := e.loadObj(st, r, pt.Elem())
+				e.assumeWF(fr, st, ev, pt.Elem())
+				fr.params[e.posKey(fv.Name(), fv.Pos())] = e.asVal(ev, pt.Elem())
+			}
+			res.Params = append(res.Params, r)
+			res.ParamNames = append(res.ParamNames, "captured "+fv.Name())
+			continue
 		}
 		cell := &Cell{name: fv.Name(), typ: pt.Elem(), key: fv}
 		val := tb.Const("fv_"+fv.Name(), e.sortOf(pt.Elem()))
